@@ -264,7 +264,8 @@ def run(ctx):
     mean_bad, top_bad, same_bad = [], [], []
     areqs, areals, treqs, treals = [], [], [], []
     sreqs, sreals = [], []
-    for name, text, kind in gen_inputs(ctx):
+    gen_inputs_cached = gen_inputs(ctx)
+    for name, text, kind in gen_inputs_cached:
         if kind == "identical":
             single, multi = text
             o1, o2 = observe.run(single), observe.run(multi)
@@ -300,6 +301,19 @@ def run(ctx):
             continue
         mol = o.mol
         probs, ngroups = mean_problems(mol)
+        # the conformations are those the file spells: one per (model, alternate-location tag), a blank tag and the digit 1
+        # meaning A, the digit 2 meaning B, ...
+        model, want_names = 1, []
+        for l in pdbgen.lines_of(text):
+            if l.startswith("MODEL "):
+                model = int(l[6:])
+            elif pdbgen.is_atom(l) and l[17:20] not in ignore and not l[12:16].strip().startswith("H") and len(l) > 16:
+                t = l[16]
+                t = "A" if t == " " else (chr(ord("A") + int(t) - 1) if t in "123456789" else t)
+                if "%d%s" % (model, t) not in want_names:
+                    want_names.append("%d%s" % (model, t))
+        if sorted(want_names) != sorted(mol.conformation_names):
+            probs.insert(0, "conformations %r, the file spells %r" % (mol.conformation_names, sorted(want_names)))
         ctx.case(key=(name, hash(text)), nontrivial=len(mol.conformation_names) > 1 and ngroups > 0)
         ctx.count("%s inputs" % kind)
         ctx.count("conformations", len(mol.conformation_names))
@@ -321,6 +335,18 @@ def run(ctx):
             tp, req, real = topup_problems(text, o2.mol, ignore)
             if tp:
                 top_bad.append((name, tp[:3], text))
+    # which conformation every record goes to: the Lean parser model against the real parser on these inputs
+    if ctx.driver_ok:
+        from . import c13
+        preqs, preals = [], []
+        for name, text, kind in gen_inputs_cached:
+            for t in (text if isinstance(text, tuple) else (text,)):
+                preqs.append(c13.model_req(t, False, []))
+                preals.append(c13.real_parse(t, False, None, ignore))
+        pouts = common.driver_batch(preqs)
+        pdis = [(r[:80], m[:80]) for r, m in zip(preals, pouts) if r != m and not (r.startswith("err") and m.startswith("err"))]
+        ctx.oblige("correspondence: Lean parser model = real parser on the multi-conformation inputs (conformation names incl. digit alternates; %d files)" % len(preqs),
+                   not pdis, str(pdis[:1]))
     ctx.sample(dict(kind="altloc/model inputs", example=gen_inputs.__doc__))
     for b in mean_bad[:3]:
         sig = "D7:average-not-over-containing-conformations" if any("mean over the" in p or "not in the average" in p or "average holds" in p for p in b[1]) else "average:" + b[0]
@@ -369,7 +395,8 @@ def topup_corr(ctx, ignore):
     rnd = ctx.rng
     P = read_parameter_file("propka.cfg", Parameters())
     reqs, reals = [], []
-    for name, text, kind in gen_inputs(ctx):
+    gen_inputs_cached = gen_inputs(ctx)
+    for name, text, kind in gen_inputs_cached:
         if kind == "identical":
             continue
         opts = propka.lib.loadOptions(["x.pdb"])
